@@ -92,6 +92,19 @@ pub fn pick_qf(r: &mut FastRng, max_q: usize) -> QfCfg {
     }
 }
 
+/// Key whose hash under the Identity hasher carries the (q+r)-bit fingerprint value `v` both in its
+/// lowest and in its highest q+r bits, so that it enumerates the fingerprints of an implementation
+/// that cuts them from the low end of the hash (the pinned tree) as well as of one that cuts them
+/// from the top. Which hash bits a filter uses is not part of any property.
+pub fn qf_fp_key(cfg: &QfCfg, v: u64) -> u64 {
+    let w = cfg.q + cfg.r;
+    if w <= 32 {
+        v | (v << (64 - w))
+    } else {
+        v
+    }
+}
+
 /// Key universe for a quotient filter. Under the Identity hasher keys are crafted
 /// (quotient, remainder) pairs, optionally with random "trash" bits above q+r that the filter must
 /// ignore; otherwise random 64-bit keys.
